@@ -150,6 +150,47 @@ def build_state(rng):
     return app, Built(done, app_dump, classes)
 
 
+def _inv(rc, total):
+    return {'rc': rc, 'total': total, 'reserved': 0, 'min': 1, 'max': ops.MAX_INT, 'step': 1, 'ratio': 1.0, '_omit': ()}
+
+
+def _grp(suffix, resources, member_of=(), forbidden_aggs=(), required=(), forbidden=(), in_tree=None):
+    return {'suffix': suffix, 'resources': list(resources), 'required': [list(x) for x in required], 'forbidden': list(forbidden),
+            'member_of': [list(x) for x in member_of], 'forbidden_aggs': list(forbidden_aggs), 'in_tree': in_tree}
+
+
+def _q(groups, v=39, policy='none', root_required=(), root_forbidden=(), same_subtree=()):
+    return {'kind': 'cand', 'v': v, 'groups': groups, 'policy': policy, 'root_required': list(root_required),
+            'root_forbidden': list(root_forbidden), 'same_subtree': [list(x) for x in same_subtree], 'verbose': False,
+            'split_required': False}
+
+
+# fixed states and queries that run first on every run (minimised shapes of earlier misses)
+FIXED_CASES = [
+    # two compute nodes sharing aggregate 3 with a sharing disk provider; node 1 is also in aggregate 1.  member_of on the
+    # UNSUFFIXED group must not change what "sharing provider" means for a suffixed group (seed C03-e)
+    ([('rp_create', 39, 1, 1, None), ('inv_set', 39, 1, 0, [_inv(0, 8)]), ('aggs_set', 39, 1, 1, [1, 3]),
+      ('rp_create', 39, 2, 2, None), ('inv_set', 39, 2, 0, [_inv(0, 8)]), ('aggs_set', 39, 2, 1, [3]),
+      ('rp_create', 39, 3, 3, None), ('inv_set', 39, 3, 0, [_inv(2, 100)]), ('traits_set', 39, 3, 1, [MISC]), ('aggs_set', 39, 3, 2, [3])],
+     [_q([_grp(0, [(0, 1)]), _grp(1, [(2, 10)])]),
+      _q([_grp(0, [(0, 1)], member_of=[[1]]), _grp(1, [(2, 10)])]),
+      _q([_grp(1, [(2, 10)]), _grp(0, [(0, 1)], member_of=[[1]])]),
+      _q([_grp(0, [(0, 1)], forbidden_aggs=[1]), _grp(1, [(2, 10)])], v=39),
+      _q([_grp(0, [(0, 1)], member_of=[[1]]), _grp(1, [(2, 10)]), _grp(2, [(2, 5)])], policy='none'),
+      _q([_grp(0, [(0, 1), (2, 10)], member_of=[[1]])], policy='absent')]),
+]
+
+
+def build_fixed(op_list):
+    app = impl.App()
+    done = []
+    for op in op_list:
+        r, _obs = hist.observe(app, op)
+        assert r.status < 300, ('fixed candidate state: set-up request failed', op, r.status, r.body[:200])
+        done.append(op)
+    return app, Built(done, ops.canon_dump(app.raw_dump()), [0, 1, 2])
+
+
 # ------------------------------------------------------------------ (ii) queries
 def _pick_amount(rng, b, rc, u=None):
     """mostly satisfiable amounts (a valid multiple of step_size of some provider's inventory);
@@ -631,6 +672,17 @@ def run(seed, n_states, n_queries, shard=20, workdir=None, verbose=True, keep=Fa
     workdir = workdir or tempfile.mkdtemp(prefix='pvcand')
     os.makedirs(workdir, exist_ok=True)
     states = []
+    if p_cand > 0:
+        for op_list, queries in FIXED_CASES:
+            app, b = build_fixed(op_list)
+            cases = []
+            for q in queries:
+                obs, r = ask(app, b, q)
+                if on_answer is not None:
+                    on_answer(app, b, q, obs, r)
+                cases.append((q, obs))
+            app.close()
+            states.append((b, cases))
     for _ in range(n_states):
         app, b = build_state(rng)
         cases = []
